@@ -26,6 +26,7 @@ def run(chk):
     r09d(chk)
     r09e(chk)
     r09g(chk)
+    r09h(chk)
     from .c10 import r10e
 
     r10e(chk, 'R09.f')
@@ -750,3 +751,49 @@ def _eval_nested_list_edits(chk, rid):
         res = Evaluator(fi, model_types=(Rules,), module=m, cls='CSSRuleRules').run(self=me, rule=new, index=index)
         ok = res == index and rs[index] is new and new._parentRule is me and new._parentStyleSheet is None and len(rs) == 4
         chk.ob(rid, RULE, 'CSSRuleRules._finishInsertRule', f'insert at {index}: the rule lands there, names this rule as parent and has no direct sheet link', ok, f'returns {res!r}, list {[r.tag for r in rs]}, parent set: {new._parentRule is me}, sheet link: {new._parentStyleSheet!r}')
+
+
+def r09h(chk, rid='R09.h'):
+    chk.rule(rid, 'the style sheet link of nested rules, decided by evaluation: rules are put into a container rule by CSSRuleRules._finishInsertRule and adopted by CSSRuleRules._setCssRules (both evaluated from the source on model rules: they set the parent rule and clear the private sheet link); CSSRule._getParentStyleSheet, evaluated on a chain sheet > @media > @media > rule built that way, gives the sheet at every depth, and none for a rule whose container chain does not lead to a sheet')
+    from sa.absint import Evaluator, Obj, Raised, Record
+
+    rm = chk.repo.mod(RULE)
+    getter = rm.get('CSSRule._getParentStyleSheet')
+    sheet = Record(_id='SHEET')
+
+    class R(Obj):
+        @property
+        def parentRule(self):
+            return self._parentRule
+
+        @property
+        def parentStyleSheet(self):
+            res = Evaluator(getter, module=rm, cls='CSSRule').run(self=self)
+            if isinstance(res, Raised):
+                raise AnalysisError(f'CSSRule._getParentStyleSheet: {res!r}')
+            return res
+
+    def mk(name, ps=None):
+        return R(name=name, _parentRule=None, _parentStyleSheet=ps, _cssRules=[], _parent=None)
+
+    for how in ('_finishInsertRule', '_setCssRules'):
+        f = rm.get(f'CSSRuleRules.{how}')
+        outer, inner, leaf = mk('outer', sheet), mk('inner', sheet), mk('leaf', sheet)
+        orphan_outer, orphan_leaf = mk('orphan container'), mk('orphan leaf', sheet)
+        for cont, child in ((outer, inner), (inner, leaf), (orphan_outer, orphan_leaf)):
+            if how == '_finishInsertRule':
+                res = Evaluator(f, module=rm, cls='CSSRuleRules').run(self=cont, rule=child, index=0)
+            else:
+                class L(list):
+                    pass
+                cont.insertRule = lambda *a: None
+                cont.deleteRule = lambda *a: None
+                res = Evaluator(f, module=rm, cls='CSSRuleRules', model_types=(L,)).run(self=cont, cssRules=L([child]))
+            if isinstance(res, Raised):
+                raise AnalysisError(f'CSSRuleRules.{how}: evaluation ends in {res!r}')
+            if child._parentRule is not cont:
+                chk.ob(rid, RULE, f'CSSRuleRules.{how}', 'the container becomes the parent rule of the rule it takes', False, f'parent rule of {child.name} is {child._parentRule!r}')
+        for r, want in ((outer, sheet), (inner, sheet), (leaf, sheet), (orphan_leaf, None)):
+            got = r.parentStyleSheet
+            chk.ob(rid, RULE, 'CSSRule._getParentStyleSheet', f'{r.name} (contained through {how}): the style sheet is ' + ('the sheet of the outermost container' if want is not None else 'none - the container chain ends without a sheet'),
+                   got is want, f'gives {got!r}: a rule two or more levels deep does not find its sheet (namespaces, variables, base URL) although it is reachable from it')
